@@ -300,6 +300,21 @@ func init() {
 			"lifetime/expiry of stored responses is not exercised (no time advance)",
 		},
 	}
+	props["C20"] = PropSpec{
+		ID: "C20",
+		Runs: []HarnessRun{
+			{Rel: "middleware/encryptcookie", Dir: "encryptcookie", Entry: "VH_C20_cookies", Cases: tierCases([]int{0, 1, 2, 4, 6, 8, 10, 12}, rangeInts(0, 14)), Reach: []string{"authentic", "tampered"}, MaxPaths: 200000, ExtraPkgs: []string{"github.com/gofiber/fiber/v3"}},
+		},
+		Bounds: map[string]string{
+			"quick":    "16- and 32-byte keys; plaintext a symbolic cookie-safe string of length 0..2; the returned value is the issued one unchanged / with one character (first, middle, last two positions) replaced by a symbolic byte / truncated by 1, 4 or len-4 / extended / issued under another key / an arbitrary string of length 0..3; an excepted cookie and, for one case, a forged plain cookie before or after plus an invalid cookie in front",
+			"thorough": "every tamper kind with both key lengths",
+		},
+		Assumptions: []string{
+			"AES-GCM is replaced by an ideal AEAD in the engine (distinct concrete ciphertext bytes per Seal; Open succeeds only for recorded (key, nonce, ciphertext)); cryptographic strength, nonce uniqueness and timing are outside",
+			"crypto/rand yields distinct concrete bytes per call (a symbolic ciphertext makes base64 round trips intractable for the solver)",
+			"natively (replay) the real cipher runs: inputs are mutation descriptors applied to the value issued at run time",
+		},
+	}
 	props["SMOKEFAIL"] = PropSpec{
 		ID: "SMOKEFAIL",
 		Runs: []HarnessRun{
